@@ -15,6 +15,16 @@
 //	    scenario extracts variables through the var/header modifier chains, a jsonpath and an xpath, and echoes them to the
 //	    target in its later steps. together= what each shot echoed; solo= what the same shot echoes as the only shot of a
 //	    fresh pool.
+//	mode=ammo kind=<http kind | grpcjson | scenario kind> n=<instances> order=<digits> [pre=1] [arr=1] [mw=…] [hdr=…] [chdr=…] [am=<k>]
+//	    one goroutine, the provider's side (ammo.go): instances take turns (shoot and release the ammo held, acquire the
+//	    next); per delivery what the ammo is at Acquire / at Shoot / on the first pass of a fresh one-instance pool; units of
+//	    the ammo OTHER instances hold that a step (Acquire with the provider's middlewares, Shoot, Release) changed; units two
+//	    outstanding ammo share. http pools take: pre=1 preload, arr=1 JSON-array file, mw= request middlewares, hdr= / chdr=
+//	    which headers the file / the `headers` option give (with or without Host, none, a Date of the ammo's own, one key with
+//	    three values), am= number of ammo in the file (pools.go: httpAmmoFile). These options also apply to alias / race / guns.
+//	mode=retain obj=<component> n=<instances> calls=<K>
+//	    one goroutine (retain.go): K calls of ONE real templater / preprocessor / postprocessor, every result kept and read
+//	    again after every later call (a result that aliases recycled memory changes during the next call).
 //	mode=handover kind=<pool kind> shots=<K> [steps=<N> failat=<K> fail=<fault>]
 //	    one goroutine: a real gun bound to a recording aggregator fires K real shots; per sample object the word of what
 //	    the gun did with it (T take from the pool, W write, G give to the aggregator). Scenario kinds take a scenario of
@@ -71,11 +81,15 @@ func main() {
 			"shared client, http/scenario, grpc/scenario, grpc/json with and without shared client): aliasing graph of two " +
 			"instances + write set of two real Shoots each + units and closure objects shared after the shots (sync.Map caches entered); " +
 			"variables of 2..4 instances shooting in random order against the same shots alone (random var/header modifier chains incl. " +
-			"substr with negative/omitted/out-of-range bounds, header values of random length 0..14 or absent); per-sample hand-over word (take/write/give) of real shots of every gun " +
+			"substr with negative/omitted/out-of-range bounds, header values of random length 0..14 or absent); the provider's side on one goroutine: " +
+			"2..4 instances taking turns in a random order (one of them often keeping its ammo through whole passes of the others) behind http providers " +
+			"with random preload / JSON-array file / request middlewares / ammo and option headers with and without Host / 1..4 ammo in the file, the grpc/json " +
+			"and the scenario providers (content of every delivery at Acquire, at Shoot and on a fresh pool's first pass; units of other instances' ammo changed by a step); " +
+			"results of every templater / preprocessor / postprocessor kept across 6..60 later calls; per-sample hand-over word (take/write/give) of real shots of every gun " +
 			"kind on every failure path of a scenario step (random scenario length and failing step); gun identity/overlap probe " +
 			"through the real engine with 1..16 instances; race-detector sweep of whole pools with 2..24 instances (discard and " +
 			"phout aggregators, scenarios with a failing step) and of each shared object (iterator, random sources, template " +
-			"caches, client pool, sample pool, DNS cache, shared schedules, the four http postprocessors with responses of changing header " +
+			"caches, client pool, ammo id counter (ids pairwise distinct), sample pool, DNS cache, shared schedules, the four http postprocessors with responses of changing header " +
 			"length, the http preprocessor) hammered by 2..32 goroutines; the -race build draws " +
 			"other cases than the plain build; non-trivial = shots reached the in-process target / samples reported / all calls done",
 	})
